@@ -222,168 +222,115 @@ def linear(ctx):
 
 
 def softmax(ctx):
+    """R07.5 on the E6 effect summary of Softmax::forward (independent of statement layout, names, helper extraction, loop idiom)."""
+    from .. import e6
     c = ctx.crate
     fn = ctx.fn(ACT + "Softmax::forward")
-    b = fn["body"]
-    while b.get("k") == "blk":
-        b = b["b"]
-    inp = pat_binds(fn["params"][1])[0][1]
-    lets = {}
-    for s in b["stmts"]:
-        if s.get("k") == "let" and s["pat"].get("k") == "bind":
-            lets[s["pat"]["hid"]] = (s["pat"]["name"], s["init"])
-    # x = input.get_flat()
-    xh = [h for h, (nm, init) in lets.items() if init is not None and strip(init).get("k") == "mcall" and strip(init)["callee"] == "tensor::Tensor::get_flat"
-          and e4.local_hid(strip(init)["recv"]) == inp]
-    if len(xh) != 1:
-        raise Unestablished("soft-max: no `x = input.get_flat()`", c.loc(fn))
-    xh = xh[0]
-    # max = x.iter().cloned().fold(NEG_INFINITY, f32::max)
-    mh = None
-    for h, (nm, init) in lets.items():
-        i = strip(init) if init is not None else None
-        if i is not None and i.get("k") == "mcall" and i["name"] == "fold":
-            src = strip(i["recv"])
-            chain = []
-            while src.get("k") == "mcall":
-                chain.append(src["name"])
-                src = strip(src["recv"])
-            a0, a1 = strip(i["args"][0]), strip(i["args"][1])
-            ok = (e4.local_hid(src) == xh and set(chain) <= {"iter", "cloned", "copied"} and "iter" in chain
-                  and a0.get("k") == "path" and a0["def"].endswith("NEG_INFINITY") and a1.get("k") == "path" and a1["def"].endswith("f32>::max"))
-            ctx.check("R07.5", "max-fold", ok, "max-not-fold-of-f32-max-from-neg-inf", c.loc(fn, i), "m = x.iter().cloned().fold(-inf, f32::max)",
-                      "the shift is computed as %s" % short(pretty(i), 120))
-            if ok:
-                mh = h
-    if mh is None and not any(o["instance"] == "max-fold" for o in ctx.obligations):
-        # loop form: let mut m = -inf; for &v in x.iter() { m = m.max(v) | f32::max(m, v) | if v > m { m = v } }
-        for h, (nm, init) in lets.items():
-            i = strip(init) if init is not None else None
-            if i is None or not (i.get("k") == "path" and i["def"].endswith("NEG_INFINITY")):
-                continue
-            for s_ in b["stmts"]:
-                if s_.get("k") != "for":
-                    continue
-                it_ = strip(s_["iter"])
-                names_ = []
-                src_ = it_
-                while src_.get("k") == "mcall":
-                    names_.append(src_["name"])
-                    src_ = strip(src_["recv"])
-                if not (e4.local_hid(src_) == xh and set(names_) <= {"iter", "cloned", "copied"} and "iter" in names_):
-                    continue
-                vb = pat_binds(s_["pat"])
-                asg = [y for y in walk(s_["body"]) if y.get("k") == "assign" and e4.local_hid(y["l"]) == h]
-                if len(vb) != 1 or len(asg) != 1:
-                    continue
-                r_ = strip(asg[0]["r"])
-                ok_ = False
-                if r_.get("k") in ("mcall", "call") and (r_.get("name") == "max" or r_.get("callee", "").endswith("f32>::max")):
-                    ops = ([r_["recv"]] + list(r_["args"])) if r_["k"] == "mcall" else list(r_["args"])
-                    ok_ = sorted(str(e4.local_hid(o_)) for o_ in ops) == sorted([str(h), str(vb[0][1])])
-                elif e4.local_hid(r_) == vb[0][1]:
-                    from .c13 import enclosing_conditions
-                    cs_ = enclosing_conditions(s_["body"], asg[0]) or []
-                    if len(cs_) == 1 and cs_[0][1] == "th":
-                        cn_ = strip(cs_[0][0]["c"])
-                        N_ = e1.Norm(c, {h: Rat.atom("m"), vb[0][1]: Rat.atom("v")})
-                        try:
-                            ok_ = str(N_.norm(cn_)) in (e1.cmp_atom("Gt", Rat.atom("v"), Rat.atom("m")), e1.cmp_atom("Ge", Rat.atom("v"), Rat.atom("m")))
-                        except ValueError:
-                            ok_ = False
-                outs_ = e4.outcomes(c, s_["body"], lambda n_: False)
-                if ok_ and all(k_ == e4.FALL for (k_, _) in outs_):
-                    ctx.ok("R07.5", "max-fold", "m = running f32::max over x starting from -inf (loop form)", c.loc(fn, s_))
-                    mh = h
-    if mh is None:
-        if not any(o["instance"] == "max-fold" for o in ctx.obligations):
+    inp = pat_binds(fn["params"][1])[0][0]
+    E = e6.Exec(c, fn)
+    paths = E.run_fn()
+    live = [p for p in paths if p.exit is None or p.exit[0] == "return"]
+    ok1 = len(live) == 1 and not live[0].pc
+    ctx.check("R07.5", "one-unconditional-result", ok1, "result-depends-on:" + short("; ".join(e6.show(t, 2) for p in live for (t, _) in p.pc), 80), c.loc(fn),
+              "one result path, no case split", "soft-max must be exp(x_i - m) / sum for every input; %d result paths, conditions: %s"
+              % (len(live), "; ".join(e6.show(t, 2) for p in live for (t, _) in p.pc)[:200]))
+    if not live:
+        return
+    # the path that does the work: the one with the most effects
+    P = max(live, key=lambda p: len(p.eff))
+    X = ("call", "tensor::Tensor::get_flat", (("p", inp),))
+    val = e6.strip_upd(P.val)
+    r = e6.is_call(val, "reshape", 2)
+    sg = e6.is_call(r[0], "single", 1) if r is not None else None
+    okr = r is not None and sg is not None and r[1] == ("field", ("p", inp), "shape")
+    ctx.check("R07.5", "reshape-to-input-shape", okr, "result-not-reshaped-to-input-shape", c.loc(fn), "Tensor::single(y).reshape(input.shape)")
+    if sg is None:
+        return
+    es = e6.elementwise_sequence(E, sg[0])
+    if es is None:
+        ctx.bad("R07.5", "normalisation", "outputs-not-exp-over-sum", c.loc(fn), "the result vector is not built one value per exponent, in order: %s" % e6.show(sg[0], 3)[:160])
+        return
+    S, expr, el = es
+
+    def sources(lid_iter, lid):
+        """(sequence walked, term of the current element) for `for v in S` and for `for i in 0..S.len()` reading S[i]"""
+        rng = e6.range_of(lid_iter)
+        if rng is not None and rng[0] == ("lit", "0"):
+            ln = e6.is_call(rng[1], "len", 1)
+            if ln is not None:
+                return ln[0], ("idx", ln[0], ("elem", lid_iter, lid))
+        return lid_iter, ("elem", lid_iter, lid)
+    S2, el2 = sources(S, el[2])
+    exps = S2
+    okn = (isinstance(exps, tuple) and len(exps) == 4 and exps[0] == "loopout" and isinstance(expr, tuple) and expr[0] == "bin" and expr[1] == "Div" and expr[2] == el2
+           and isinstance(expr[3], tuple) and len(expr[3]) == 4 and expr[3][0] == "loopout" and expr[3][2] == exps[2])
+    ctx.check("R07.5", "normalisation", okn, "outputs-not-exp-over-sum", c.loc(fn), "y_i = e_i / sum, in order",
+              "result element is %s over %s" % (e6.show(expr, 3)[:120], e6.show(S, 2)[:80]))
+    if not okn:
+        return
+    lid = exps[2]
+    sumv = expr[3]
+    L = E.loop_summaries.get(lid)
+    src, xel = sources(L["iter"], lid) if L.get("kind") == "for" else (None, None)
+    ctx.check("R07.5", "loop-over-x", src == X, "loop-not-over-x", c.loc(fn, L["node"]), "for &v in x.iter()", "the exponent loop walks %s" % e6.show(L.get("iter"), 2)[:100])
+    lp = L["paths"]
+    oke = len(lp) == 1 and lp[0].exit is None and not lp[0].pc
+    ctx.check("R07.5", "loop-no-early-exit", oke, "early-exit-or-conditional-sum", c.loc(fn, L["node"]), "every element contributes once")
+    if not oke:
+        return
+    eff = [e for e in lp[0].eff if e[0] != "loop"]
+    sets = [e for e in eff if e[0] == "set" and e[1] == ("local", sumv[1])]
+    pushes = [e for e in eff if e[0] == "push" and e[1] == ("local", exps[1])]
+    other = [e for e in eff if e not in sets and e not in pushes]
+    EXP = pushes[0][2] if len(pushes) == 1 else None
+    oks = (len(sets) == 1 and len(pushes) == 1 and not other and sets[0][2] == e6.mk_bin("Add", ("loopin", sumv[1], lid), EXP))
+    ctx.check("R07.5", "sum-and-push-same-exponent", oks, "sum-or-push-mismatch", c.loc(fn, L["node"]), "sum += exp; exps.push(exp)",
+              "loop effects: %s" % "; ".join(e[0] + " " + e6.show(e[2], 3)[:80] for e in eff))
+    ctx.check("R07.5", "sum-starts-at-zero", sumv[3] in (("lit", "0.0"), ("lit", "0.0f32"), ("lit", "0."), ("lit", "0f32")) and
+              (e6.is_call(exps[3], "new", 0) is not None or e6.is_call(exps[3], "with_capacity", 1) is not None or exps[3] == ("vec", ())),
+              "sum-initial-value", c.loc(fn), "sum = 0.0, exps empty")
+    if EXP is None:
+        ctx.bad("R07.5", "exp-argument", "no-exp-in-loop", c.loc(fn, L["node"]), "")
+        return
+    ea = e6.is_call(EXP, "exp", 1)
+    M = None
+    if ea is not None and isinstance(ea[0], tuple) and ea[0][0] == "bin" and ea[0][1] == "Sub" and ea[0][2] == xel:
+        M = ea[0][3]
+    ctx.check("R07.5", "exp-argument", M is not None, "exp-argument-not-x-minus-max:" + short(e6.show(ea[0] if ea else EXP, 3), 40), c.loc(fn, L["node"]), "exp(v - max)",
+              "exponent is %s; without subtracting the maximum exp overflows to inf for large inputs and inf/inf = NaN" % e6.show(EXP, 3)[:120])
+    if M is None:
+        if not e6.find_terms(EXP, lambda t: t[0] == "call" and t[1].endswith("::max")) and not e6.find_terms(EXP, lambda t: t[0] == "call" and t[1].endswith("::fold")):
             ctx.bad("R07.5", "max-fold", "no-max-subtraction", c.loc(fn), "soft-max computes no maximum of its inputs: exp overflows for large inputs")
         return
-    loops = [s for s in b["stmts"] if s.get("k") == "for" and any(y.get("k") == "mcall" and y["name"] == "exp" for y in walk(s["body"]))]
-    if len(loops) != 1:
-        raise Unestablished("soft-max: expected one accumulation loop", c.loc(fn))
-    lp = loops[0]
-    it = strip(lp["iter"])
-    ctx.check("R07.5", "loop-over-x", it.get("k") == "mcall" and it["name"] == "iter" and e4.local_hid(it["recv"]) == xh, "loop-not-over-x", c.loc(fn, lp), "for &v in x.iter()")
-    vh = pat_binds(lp["pat"])[0][1]
-    body = strip(lp["body"])["b"]
-    el = [s for s in body["stmts"] if s.get("k") == "let"]
-    eh = None
-    for s in el:
-        i = strip(s["init"])
-        if i.get("k") == "mcall" and i["name"] == "exp":
-            from ..hir import resolve as _resolve, let_table as _let_table
-            arg = _resolve(i["recv"], _let_table(lp["body"]))        # `let shifted = v - max; shifted.exp()`
-            ok = arg.get("k") == "bin" and arg["op"] == "Sub" and e4.local_hid(arg["l"]) == vh and e4.local_hid(arg["r"]) == mh
-            ctx.check("R07.5", "exp-argument", ok, "exp-argument-not-x-minus-max:" + short(pretty(arg), 40), c.loc(fn, i), "exp(v - max)",
-                      "exponent is exp(%s); without subtracting the maximum exp overflows to inf for large inputs and inf/inf = NaN" % pretty(arg))
-            eh = s["pat"]["hid"]
-    if eh is None:
-        ctx.bad("R07.5", "exp-argument", "no-exp-in-loop", c.loc(fn, lp), "")
-        return
-    sums = [x for x in walk(lp["body"]) if x.get("k") == "assignop" and x["op"].startswith("Add") and e4.local_hid(x["r"]) == eh]
-    pushes = [x for x in walk(lp["body"]) if x.get("k") == "mcall" and x["name"] == "push" and e4.local_hid(x["args"][0]) == eh]
-    ctx.check("R07.5", "sum-and-push-same-exponent", len(sums) == 1 and len(pushes) == 1, "sum-or-push-mismatch", c.loc(fn, lp),
-              "sum += exp; exps.push(exp)")
-    outs = e4.outcomes(c, lp["body"], lambda n: n is (sums[0] if sums else None))
-    ctx.check("R07.5", "loop-no-early-exit", all(k == e4.FALL and cnt == 1 for (k, cnt) in outs), "early-exit-or-conditional-sum", c.loc(fn, lp), "every element contributes once")
-    if not sums or not pushes:
-        return
-    sh = e4.local_hid(sums[0]["l"])
-    exh = e4.local_hid(pushes[0]["recv"])
-    init_sum = lets.get(sh, (None, None))[1]
-    ctx.check("R07.5", "sum-starts-at-zero", init_sum is not None and e4.lit_value(init_sum) == "0.0", "sum-initial-value", c.loc(fn), "sum = 0.0")
-    # y = exps.iter().map(|&v| v / sum).collect()
-    ok = False
-    yh = None
-    for h, (nm, init) in lets.items():
-        i = strip(init) if init is not None else None
-        if i is not None and i.get("k") == "mcall" and i["name"] == "collect":
-            mp = strip(i["recv"])
-            if mp.get("k") == "mcall" and mp["name"] == "map":
-                src = strip(mp["recv"])
-                cl = strip(mp["args"][0])
-                if src.get("k") == "mcall" and src["name"] == "iter" and e4.local_hid(src["recv"]) == exh:
-                    pv = pat_binds(cl["params"][0])[0][1]
-                    bd = strip(cl["body"])
-                    while bd.get("k") == "blk" and not bd["b"]["stmts"]:
-                        bd = strip(bd["b"]["tail"])
-                    ok = bd.get("k") == "bin" and bd["op"] == "Div" and e4.local_hid(bd["l"]) == pv and e4.local_hid(bd["r"]) == sh
-                    yh = h
-    if not ok:
-        # loop form: `for &e in exps.iter() { y.push(e / sum) }` into a freshly created empty vector
-        for s_ in b["stmts"]:
-            s_ = strip(s_)
-            if s_ is None or s_.get("k") != "for" or s_ is lp:
-                continue
-            src = strip(s_["iter"])
-            if not (src.get("k") == "mcall" and src["name"] == "iter" and e4.local_hid(src["recv"]) == exh):
-                continue
-            pb = pat_binds(s_["pat"])
-            bd = strip(s_["body"])
-            while bd is not None and bd.get("k") == "blk" and not bd["b"]["stmts"]:
-                bd = strip(bd["b"]["tail"])
-            if bd is not None and bd.get("k") == "blk" and len(bd["b"]["stmts"]) == 1 and bd["b"]["tail"] is None:
-                bd = strip(bd["b"]["stmts"][0])
-            if len(pb) != 1 or bd is None or bd.get("k") != "mcall" or bd["name"] != "push":
-                continue
-            dv = strip(bd["args"][0])
-            th = e4.local_hid(bd["recv"])
-            init_y = lets.get(th, (None, None))[1]
-            iy = strip(init_y) if init_y is not None else None
-            empty = iy is not None and iy.get("k") == "call" and iy["callee"].split("::")[-1] in ("new", "with_capacity") and "Vec" in iy["callee"]
-            other = [x for x in walk(fn["body"]) if x.get("k") == "mcall" and x is not bd and e4.local_hid(x.get("recv")) == th
-                     and x["name"] not in ("len", "iter", "clone")]
-            if (empty and not other and dv.get("k") == "bin" and dv["op"] == "Div" and e4.local_hid(dv["l"]) == pb[0][1]
-                    and e4.local_hid(dv["r"]) == sh):
-                ok = True
-                yh = th
-    ctx.check("R07.5", "normalisation", ok, "outputs-not-exp-over-sum", c.loc(fn), "y_i = e_i / sum, in order")
-    t = strip(b["tail"]) if b["tail"] is not None else None
-    from ..hir import cpretty as _cpretty, let_table as _let_table2
-    okr = (t is not None and t.get("k") == "mcall" and t["callee"] == "tensor::Tensor::reshape" and _cpretty(strip(t["args"][0]), _let_table2(fn["body"])) == "%s.shape.clone()" % fn["params"][1]["name"]
-           and strip(t["recv"]).get("k") == "call" and strip(t["recv"])["callee"] == "tensor::Tensor::single" and e4.local_hid(strip(t["recv"])["args"][0]) == yh)
-    ctx.check("R07.5", "reshape-to-input-shape", okr, "result-not-reshaped-to-input-shape", c.loc(fn), "Tensor::single(y).reshape(input.shape)")
+    # M = fold(x, -inf, f32::max)  or a running maximum kept in a local
+    okm = False
+    fd = e6.is_call(M, "fold", 3)
+    if fd is not None:
+        okm = (fd[0] == X and isinstance(fd[1], tuple) and fd[1][0] == "path" and fd[1][1].endswith("NEG_INFINITY")
+               and isinstance(fd[2], tuple) and fd[2][0] == "path" and fd[2][1].endswith("f32>::max"))
+    elif isinstance(M, tuple) and len(M) == 4 and M[0] == "loopout":
+        ML = E.loop_summaries.get(M[2])
+        msrc, mel = sources(ML["iter"], M[2]) if ML and ML.get("kind") == "for" else (None, None)
+        start = isinstance(M[3], tuple) and M[3][0] == "path" and M[3][1].endswith("NEG_INFINITY")
+        mps = ML["paths"] if ML else []
+        lin = ("loopin", M[1], M[2])
+        form = False
+        if len(mps) == 1 and not mps[0].pc and mps[0].exit is None:
+            ef = [e for e in mps[0].eff if e[0] != "loop"]
+            if len(ef) == 1 and ef[0][0] == "set" and ef[0][1] == ("local", M[1]):
+                mx = e6.is_call(ef[0][2], "max", 2)
+                form = mx is not None and sorted(map(repr, mx)) == sorted(map(repr, (lin, mel)))
+        elif len(mps) == 2 and all(q.exit is None for q in mps):
+            upd = [q for q in mps if [e for e in q.eff if e[0] != "loop"]]
+            keep = [q for q in mps if not [e for e in q.eff if e[0] != "loop"]]
+            if len(upd) == 1 and len(keep) == 1:
+                ef = [e for e in upd[0].eff if e[0] != "loop"]
+                cond = [t for (t, pol) in upd[0].pc if pol]
+                gt = {repr(e6.mk_bin("Gt", mel, lin)), repr(e6.mk_bin("Lt", lin, mel)), repr(e6.mk_bin("Ge", mel, lin)), repr(e6.mk_bin("Le", lin, mel))}
+                form = (len(ef) == 1 and ef[0][0] == "set" and ef[0][1] == ("local", M[1]) and ef[0][2] == mel and len(upd[0].pc) == 1 and len(cond) == 1 and repr(cond[0]) in gt)
+        okm = msrc == X and start and form
+    ctx.check("R07.5", "max-fold", okm, "max-not-fold-of-f32-max-from-neg-inf", c.loc(fn), "m = x.iter().cloned().fold(-inf, f32::max)",
+              "the shift is computed as %s" % e6.show(M, 3)[:160])
 
 
 def dispatch(ctx):
@@ -423,4 +370,4 @@ def run(ctx):
     ctx.floor("R07.2", 4, "four differentiable activations")
     ctx.floor("R07.3", 16 + 8, "16 shape literals + 8 sibling comparisons")
     ctx.floor("R07.4", 16, "16 arms")
-    ctx.floor("R07.5", 8, "soft-max structure facts")
+    ctx.floor("R07.5", 9, "soft-max structure facts")
